@@ -244,7 +244,17 @@ class Analysis:
         args = tuple(self.term_at(bb, idx, a) for a in t['args'])
         ct = ('call', callee, args, bb)
         red = self._beta(ct)
-        return red if red is not None else ct
+        res = red if red is not None else ct
+        return self._outline(res, bb)
+
+    def _outline(self, t, site):
+        """A12: an audited helper that this tree has written out in place is read as the call it was (rules/outline.py)"""
+        facts = getattr(self.b, 'facts', None)
+        o = getattr(facts, 'outliner', None) if facts is not None else None
+        if o is None or not o.active:
+            return t
+        r = o.try_root(t, site, self.b.q)
+        return r if r is not None else t
 
     def _beta(self, ct, depth=0):
         """a closure that is built and called in the same function — `let f = |p| expr; .. f(x)` — is replaced by its
@@ -300,7 +310,10 @@ class Analysis:
         return sub(rets[0])
 
     def callee_info(self, bb):
-        return callee_of(self.b.blocks[bb]['t'])
+        t = self.b.blocks[bb]['t']
+        if t.get('k') != 'call':
+            return {}        # the site of an outlined expression (A12) is not a call terminator
+        return callee_of(t)
 
     def apply_proj(self, base, pr, bb, idx):
         t = base
@@ -321,6 +334,15 @@ class Analysis:
                             break
                     if hit is not None and (t[1] != 'adt' or e.get('v') in (None, t[3])):
                         t = hit
+                        continue
+                # a.zip(b) is Some((x, y)) exactly when a = Some(x) and b = Some(y): its payload's components are the
+                # payloads of the operands
+                if e.get('adt') == '(tuple)' and name in ('0', '1') and t[0] == 'field' and t[4] == 'Some' and t[2] == '0':
+                    z = t[1]
+                    while z[0] in ('ref', 'deref'):
+                        z = z[1]
+                    if z[0] == 'call' and isinstance(z[1], str) and z[1].endswith('Option::<T>::zip') and len(z[2]) == 2:
+                        t = ('field', z[2][int(name)], '0', t[3], 'Some')
                         continue
                 if t[0] == 'bin' and e.get('adt') == '(tuple)' and t[1] in OVF:
                     t = ('bin', OVF[t[1]], t[2], t[3]) if name == '0' else ('ovf', OVF[t[1]], t[2], t[3])
@@ -358,7 +380,7 @@ class Analysis:
         if k == 'cast':
             return ('cast', rv['ck'], rv['ty'], self.term_at(bb, idx, rv['o']))
         if k == 'binop':
-            return ('bin', rv['op'], self.term_at(bb, idx, rv['a']), self.term_at(bb, idx, rv['b']))
+            return self._outline(('bin', rv['op'], self.term_at(bb, idx, rv['a']), self.term_at(bb, idx, rv['b'])), bb)
         if k == 'unop':
             return ('un', rv['op'], self.term_at(bb, idx, rv['o']))
         if k == 'discr':
@@ -367,7 +389,7 @@ class Analysis:
             ak = rv['ak']
             ops = [self.term_at(bb, idx, o) for o in rv['ops']]
             if ak == 'adt':
-                return ('agg', 'adt', rv['adt'], rv['v'], tuple(zip(rv['fields'], ops)))
+                return self._outline(('agg', 'adt', rv['adt'], rv['v'], tuple(zip(rv['fields'], ops))), bb)
             if ak == 'closure':
                 return ('agg', 'closure', rv['def'], None, tuple(('upvar%d' % i, o) for i, o in enumerate(ops)))
             return ('agg', ak, None, None, tuple((str(i), o) for i, o in enumerate(ops)))
